@@ -37,7 +37,7 @@ func skolemize(g *Term, sks *[]*Term) *Term {
 }
 
 // groundIndexTerms collects closed terms used as array indices (select/store), per sort.
-func groundIndexTerms(roots []*Term, into map[*Sort][]*Term, seen map[*Term]bool, limit int) {
+func groundIndexTerms(roots []*Term, into map[*Sort][]*Term, seen map[*Term]bool, limit int, withSubTerms bool) {
 	visited := map[*Term]bool{}
 	var rec func(t *Term)
 	rec = func(t *Term) {
@@ -50,6 +50,23 @@ func groundIndexTerms(roots []*Term, into map[*Sort][]*Term, seen map[*Term]bool
 			if len(ix.fb) == 0 && !seen[ix] && len(into[ix.S]) < limit {
 				seen[ix] = true
 				into[ix.S] = append(into[ix.S], ix)
+			}
+			// sub-terms of index expressions (e.g. x % size inside off + zext(x % size)) are candidates too
+			if len(ix.fb) == 0 && withSubTerms {
+				var sub func(u *Term, d int)
+				sub = func(u *Term, d int) {
+					if d > 4 || u.IsConst() {
+						return
+					}
+					if u != ix && u.S.K == KBV && u.S != ix.S && !seen[u] && len(into[u.S]) < limit && (u.Op == "bvurem" || u.Op == "bvand" || u.Op == "var" || u.Op == "select" || u.Op == "bvadd" || u.Op == "bvsub") {
+						seen[u] = true
+						into[u.S] = append(into[u.S], u)
+					}
+					for _, a := range u.Args {
+						sub(a, d+1)
+					}
+				}
+				sub(ix, 0)
 			}
 		}
 		for _, a := range t.Args {
@@ -120,7 +137,7 @@ func instantiateHyp(h *Term, cands map[*Sort][]*Term, out *[]*Term, budget *int)
 
 // Instantiated returns (qfQuery, fullQuery): the first has no quantified hypotheses (only their instances),
 // the second keeps them and adds the instances.
-func (q *Query) Instantiated() (*Query, *Query) {
+func (q *Query) Instantiated(withSub bool) (*Query, *Query) {
 	if q.Goal == nil {
 		return nil, q
 	}
@@ -142,8 +159,8 @@ func (q *Query) Instantiated() (*Query, *Query) {
 		cands[s.S] = append(cands[s.S], s)
 		seen[s] = true
 	}
-	groundIndexTerms([]*Term{goal}, cands, seen, 10)
-	groundIndexTerms(q.Hyps, cands, seen, 14)
+	groundIndexTerms([]*Term{goal}, cands, seen, 10, withSub)
+	groundIndexTerms(q.Hyps, cands, seen, 14, withSub)
 	var inst []*Term
 	budget := 3000
 	for round := 0; round < 2; round++ {
@@ -160,7 +177,7 @@ func (q *Query) Instantiated() (*Query, *Query) {
 			for _, l := range cands {
 				before += len(l)
 			}
-			groundIndexTerms(out, cands, seen, 18)
+			groundIndexTerms(out, cands, seen, 18, withSub)
 			after := 0
 			for _, l := range cands {
 				after += len(l)
